@@ -34,8 +34,11 @@ def main():
     for sid in ids:
         meta = json.load(open(os.path.join(VERIF, SET, sid, 'meta.json')))
         props = claimed if '--all-props' in sys.argv else [meta['property']]
+        for a in sys.argv:
+            if a.startswith('--also='):      # own property plus these
+                props = props + [q for q in a[7:].split(',') if q in claimed and q not in props]
         jobs.append((sid, props))
-    with cf.ThreadPoolExecutor(max_workers=4) as ex:
+    with cf.ThreadPoolExecutor(max_workers=5) as ex:
         for sid, res in ex.map(lambda j: run_one(*j), jobs):
             for prop, v in res.items():
                 print(sid, prop, v)
